@@ -21,7 +21,7 @@ def fxv(x):
     return int(round(float(x) * FX))
 
 
-def big_continuum(pa, rng, shape, labels):
+def big_continuum(pa, rng, shape, labels, unlabelled=0.0):
     from pyannote.core import Segment
     n_ann, per = shape
     c = pa.Continuum()
@@ -31,7 +31,7 @@ def big_continuum(pa, rng, shape, labels):
         for _ in range(per):
             t += rng.randint(0, 6)
             dur = rng.randint(1, 8)
-            c.add(name, Segment(float(t), float(t + dur)), rng.choice(labels))
+            c.add(name, Segment(float(t), float(t + dur)), None if rng.random() < unlabelled else rng.choice(labels))
             t += dur - rng.randint(0, 2)
     return c
 
@@ -60,6 +60,11 @@ def make_dissim(pa, rng, kind, labels, de, alpha, beta, cat_map=None):
         return pa.CombinedCategoricalDissimilarity(alpha=alpha, beta=beta, delta_empty=de,
                                                    pos_dissim=pa.PositionalSporadicDissimilarity(delta_empty=de),
                                                    cat_dissim=pa.AbsoluteCategoricalDissimilarity(delta_empty=de))
+    if kind == "comb_ord_natural":
+        # the natural constructor path: the component is built with its default delta_empty and the combined
+        # dissimilarity imposes its own on it
+        return pa.CombinedCategoricalDissimilarity(alpha=alpha, beta=beta, delta_empty=de,
+                                                   cat_dissim=pa.OrdinalCategoricalDissimilarity(labs, p=[float(i * i) for i in range(len(labs))]))
     if kind == "comb_ord":
         # positions attached to the labels (order-preserving renaming keeps them attached)
         return pa.CombinedCategoricalDissimilarity(alpha=alpha, beta=beta, delta_empty=de,
@@ -80,20 +85,25 @@ def build(pa, rng, count, rep):
     recs, metas = [], []
     labels = ["Adj", "Noun", "Prep", "Verb"]
     shapes = [(2, 60), (3, 15), (5, 5), (2, 25), (4, 8)]
-    kinds = ["pos", "comb_abs", "comb_ord", "comb_pre", "comb_abs_explicit"]
+    kinds = ["pos", "comb_abs", "comb_ord", "comb_pre", "comb_abs_explicit", "comb_ord_natural", "comb_abs_mixed"]
     tks = ["delta_empty", "rename", "permute", "shift", "scale", "catrename_order", "catrename_any", "delta_empty"]
     it = 0
     while len(recs) < count:
         shape = rng.choice(shapes)
-        c = big_continuum(pa, rng, shape, labels)
         kind = kinds[it % len(kinds)]          # systematic: every (dissimilarity, transformation) combination
+        c = big_continuum(pa, rng, shape, labels, unlabelled=0.3 if kind == "comb_abs_mixed" else 0.0)
+        if kind == "comb_abs_mixed":           # labelled and unlabelled units mixed, default combined dissimilarity
+            kind = "comb_abs"
+            mixed = True
+        else:
+            mixed = False
         de = rng.choice([1.0, 0.5, 2.0])
         alpha, beta = rng.choice([1, 3, 0.5]), rng.choice([1, 2, 0.5])
         d = make_dissim(pa, rng, kind, labels, de, alpha, beta)
         base = c.get_best_alignment(d).disorder
         tk = tks[(it // len(kinds)) % len(tks)]
         it += 1
-        meta = {"shape": shape, "dissim": kind, "delta_empty": de, "alpha": alpha, "beta": beta, "transform": tk}
+        meta = {"shape": shape, "dissim": kind, "delta_empty": de, "alpha": alpha, "beta": beta, "transform": tk, "mixed_unlabelled": mixed}
         rec = {"kind": tk, "c": [1, 1], "base": fxv(base), "other": 0, "hasgamma": 0, "gbase": 0, "gother": 0}
         anns = list(c.annotators)
         if tk == "rename":
@@ -117,6 +127,14 @@ def build(pa, rng, count, rep):
             other = transform(pa, c, cat_map=cm).get_best_alignment(d2).disorder
         elif tk == "catrename_any":
             if kind not in ("pos", "comb_abs", "comb_abs_explicit"):
+                tk = "rename"
+                rec["kind"] = meta["transform"] = tk
+                m = {a: f"zz_{i}_{a}" for i, a in enumerate(anns)}
+                other = transform(pa, c, ann_map=m).get_best_alignment(d).disorder
+                rec["other"] = fxv(other)
+                recs.append(rec)
+                metas.append(meta)
+                rep.case(key=json.dumps([meta, rec["base"]]))
                 continue
             perm = list(labels)
             rng.shuffle(perm)
@@ -131,10 +149,12 @@ def build(pa, rng, count, rep):
             meta["factor"] = factor
             if shape[0] * shape[1] <= 50:
                 s = rng.randint(0, 2 ** 31 - 1)
+                # the statistical sampler is defined on labelled references only: shuffle sampler when units are unlabelled
+                mk = (lambda: pa.ShuffleContinuumSampler()) if mixed else (lambda: None)
                 np.random.seed(s)
-                g1 = c.compute_gamma(d, n_samples=4)
+                g1 = c.compute_gamma(d, n_samples=4, sampler=mk())
                 np.random.seed(s)
-                g2 = c.compute_gamma(d2, n_samples=4)
+                g2 = c.compute_gamma(d2, n_samples=4, sampler=mk())
                 rec.update(hasgamma=1, gbase=fxv(g1.gamma), gother=fxv(g2.gamma))
         rec["other"] = fxv(other)
         recs.append(rec)
